@@ -961,6 +961,55 @@ theorem volume_dimension_index_and_handedness {g : Geom} (hg : Admissible g) (no
   rw [div_lt_iff (planePosition g) g.d2 g.d1 nonempty (fun a _ b _ h => volume_dist_inj hg a b h) om segs present frames hok f f' hf hf',
     volume_dist_lt hg]
 
+/-- **Without omission the dimension index value IS the place along the stacking axis**: all planes kept, frame of plane
+`k` of an `n`-plane volume gets index `k + 1` when the volume is right-handed and `n − k` when it is left-handed (the
+stored order is the mirror image, as the read-back volume is). -/
+theorem volume_dimension_index_without_omission {g : Geom} (hg : Admissible g) (nonempty : List Bool)
+    (segs : List (Option Nat)) (present : Option Nat → Nat → Bool) (frames : List Frame)
+    (hok : segFrames ((List.range nonempty.length).map (planePosition g)) g.d2 g.d1 nonempty false segs present = .ok frames)
+    (f : Frame) (hf : f ∈ frames) :
+    f.plane < nonempty.length ∧
+    f.div = if handInt g = 1 then (f.plane : Int) + 1 else (nonempty.length : Int) - f.plane := by
+  have hinj : ∀ a < nonempty.length, ∀ b < nonempty.length,
+      distOf (planePosition g) g.d2 g.d1 a = distOf (planePosition g) g.d2 g.d1 b → a = b := fun a _ b _ h => volume_dist_inj hg a b h
+  obtain ⟨frames', hok', hmem⟩ := mem_segFrames (planePosition g) g.d2 g.d1 nonempty hinj false segs present
+  rw [hok'] at hok
+  simp only [Except.ok.injEq] at hok
+  subst hok
+  obtain ⟨_, hk, _, hdiv⟩ := (hmem f).mp hf
+  have hkept : keptPlanes nonempty false = List.range nonempty.length := by
+    rw [keptPlanes_eq]; simp [omitEff]
+  rw [hkept] at hk hdiv
+  have hp : f.plane < nonempty.length := List.mem_range.mp hk
+  refine ⟨hp, ?_⟩
+  rw [hdiv]
+  have hh : handInt g = 1 ∨ handInt g = -1 := by unfold handInt; split <;> simp
+  rcases hh with hh | hh
+  · rw [if_pos hh]
+    have : (List.range nonempty.length).filter (fun k => decide (distOf (planePosition g) g.d2 g.d1 k < distOf (planePosition g) g.d2 g.d1 f.plane))
+        = (List.range nonempty.length).filter (fun j => decide (j < f.plane)) := by
+      apply List.filter_congr
+      intro x _
+      have := volume_dist_lt hg x f.plane
+      rw [hh] at this
+      simp only [one_mul, Nat.cast_lt] at this
+      simp [this]
+    rw [this, range_filter_lt _ _ (le_of_lt hp)]
+    omega
+  · have hne : ¬ (handInt g = 1) := by rw [hh]; decide
+    rw [if_neg hne]
+    have : (List.range nonempty.length).filter (fun k => decide (distOf (planePosition g) g.d2 g.d1 k < distOf (planePosition g) g.d2 g.d1 f.plane))
+        = (List.range nonempty.length).filter (fun j => decide (f.plane < j)) := by
+      apply List.filter_congr
+      intro x _
+      have := volume_dist_lt hg x f.plane
+      rw [hh] at this
+      have e : (-1 * (x : Int) < -1 * (f.plane : Int)) ↔ f.plane < x := by omega
+      rw [e] at this
+      simp [this]
+    rw [this, range_filter_gt _ _ hp]
+    omega
+
 /-- **Bridge (tie T): the loop of the model uses the regenerated expressions of the current source** — the skip test
 (`segment_number is not None`, `omit_empty_frames and not np.any(segment_array)`), the dimension index value
 (`[plane_dim_ind]`), the first value of `enumerate(plane_sort_index, 1)` and the `omit_empty_frames` the loop sees after
@@ -977,7 +1026,8 @@ theorem frame_loop_uses_the_source :
 set_option maxRecDepth 20000 in
 /-- **Fingerprint: the frame loop and the plane order** (`frameLoop`, `planeFrames`, `includedPlanes`, `planeSortIndex`,
 `Frame.indexValues` were written from these expressions; change detector, no clause content): segments outside, planes in
-the order of the sort index inside; a frame takes pixels, position and source reference from the SAME `plane_index`;
+the order of the sort index inside; a frame takes pixels and position from the SAME `plane_index` (which source frame it references is C02's matter and
+not pinned here);
 omitted planes leave the sort index by membership; encoded frames of a worker pool are gathered in submission order; the
 sort index is `np.unique(distances, return_index=True)` of `normal · position` with the right-handed normal of the volume
 index convention; DimensionIndexValues = `[segment] + [position index]`. -/
@@ -989,7 +1039,6 @@ theorem frame_loop_wiring :
      wiringLoop.lookup "loop.inner.iter" = some "enumerate(plane_sort_index, 1)") ∧
     (wiringLoop.lookup "frame.plane_array" = some "pixel_array[plane_index]" ∧
      wiringLoop.lookup "frame.pffg.plane_position" = some "plane_positions[plane_index]" ∧
-     wiringLoop.lookup "frame.pffg.source_image_index" = some "plane_index" ∧
      wiringLoop.lookup "frame.pffg.segment_number" = some "segment_number" ∧
      wiringLoop.lookup "frame.pffg.dimension_index_values" = some "dimension_index_values") ∧
     (wiringLoop.lookup "omit.some_nonempty.plane_sort_index"
@@ -1017,7 +1066,7 @@ theorem frame_loop_wiring :
     (wiringDistances.lookup "slice_distances.body"
        = some "origin_distances = normal_vector[None] @ image_positions.T ; origin_distances = origin_distances.squeeze(0) ; return origin_distances" ∧
      wiringDistances.lookup "normal.right_handed" = some "n = np.cross(rotation_columns[0], rotation_columns[1])") := by
-  refine ⟨⟨by decide, by decide, by decide, by decide⟩, ⟨by decide, by decide, by decide, by decide, by decide⟩,
+  refine ⟨⟨by decide, by decide, by decide, by decide⟩, ⟨by decide, by decide, by decide, by decide⟩,
     ⟨by decide, by decide, by decide, by decide, by decide⟩, ⟨by decide, by decide, by decide, by decide⟩,
     ⟨by decide, by decide, by decide⟩, ⟨by decide, by decide, by decide, by decide, by decide, by decide⟩,
     ⟨by decide, by decide⟩⟩
